@@ -234,7 +234,7 @@ def evaluate(i, scn):
          f"{tag}: singular values / spectra differ: {np.round(v1, 8).tolist()} vs {np.round(v2, 8).tolist()}")
     tol = 1e-4 if cls == "SparsePCA" else 1e-6
     nf = 2 if kind in ("cross", "multi") else 1
-    sf = cls in ("multiCCA", "OPA")          # multi.CCA and OPA state no sign convention for their modes
+    sf = cls in ("multiCCA", "OPA", "SparsePCA")   # these state no sign convention for their modes (SparsePCA: sign of its SVD start)
     compare(ck, f"{tag}: components", c1, c2, tol, nf, sf)
     compare(ck, f"{tag}: scores", s1, s2, tol, nf, sf)
     return dict(found=ck.found, M=ck.M, count={cls: 1})
